@@ -14,7 +14,7 @@ CONSTANTS
   FormatV <- Set1
   CompV <- Set1
   TbindV <- Empty
-  NameChoices <- Set1
+  NameChoices <- Set01
   EndForms <- Set1
   LabelStmts = FALSE
   Contains = FALSE
